@@ -117,10 +117,12 @@ theorem pdb_atom_record (T : Tables) (L : Pdb.Layout) (hL : Pdb.LayoutOK L) (ser
     Pdb.parseAtom T L (Pdb.dumpAtom T L serial a) = .ok a :=
   Pdb.parseAtom_dumpAtom T L hL serial a hser ha
 
-/-- PDB: the written file — TITLE, ATOM records, CONECT records (every bond in both directions, at most four
+/-- PDB: the written file — TITLE and COMPND records of any number of lines (continuation numbers 2, 3, …, 10, … right-
+justified up to column ten and one blank), ATOM records, CONECT records (every bond in both directions, at most four
 partners per record, an extra record without partners when the count is a multiple of four), END — is read back
 as the object with its bonds de-duplicated, for any number of atoms the serial columns hold and any list of
-bonds between existing atoms (repeated bonds, any order, any number of partners per atom). -/
+bonds between existing atoms (repeated bonds, any order, any number of partners per atom); multi-line titles and
+compounds come back line by line. -/
 theorem pdb_load_dump (T : Tables) (L : Pdb.Layout) (hL : Pdb.LayoutOK L) (hC : Pdb.ConectOK L) (o : Pdb.Obj)
     (h : Pdb.DomB T L o) : Pdb.load T L (Pdb.dump T L o) = .ok (Pdb.norm L o) :=
   Pdb.load_dump_bonds T L hL hC o h
@@ -138,11 +140,11 @@ theorem pdb_written_not_refused (T : Tables) (L : Pdb.Layout) (o : Pdb.Obj) (h :
   unfold Pdb.dumpE
   have h1 : (o.atoms.all fun a => (T.sym? a.zn).isSome) = true := by
     rw [List.all_eq_true]; intro a ha
-    obtain ⟨s, hs, _⟩ := Pdb.okZ_spec (h.2.2.2.2.1 a ha).1
+    obtain ⟨s, hs, _⟩ := Pdb.okZ_spec (h.2.2.2.2.2.1 a ha).1
     simp [hs]
   have h2 : (o.bonds.all fun b => decide (b.1 < o.atoms.length) && decide (b.2 < o.atoms.length)) = true := by
     rw [List.all_eq_true]; intro b hb
-    simp [h.2.2.2.2.2.2.2 b hb]
+    simp [h.2.2.2.2.2.2.2.2 b hb]
   simp [h1, h2]
 
 /-- PDB: the layout in the source satisfies the side conditions: the writer's ATOM columns are the
@@ -172,7 +174,7 @@ theorem pdb_conect_examples :
 bonds in both orders, a repeated bond, an atom with exactly four partners (extra empty record) and one with five. -/
 example : Pdb.DomB tables pdbL ⟨[], [⟨17, ['C','l','1','2'], ['A','B','C'], 'A', -999, ⟨true, 999999⟩, ⟨false, 9999999⟩,
     ⟨true, 0⟩, ⟨false, 100⟩, ⟨false, 99999⟩⟩, ⟨1, [], [], ' ', 9999, ⟨false, 0⟩, ⟨false, 1⟩, ⟨true, 1⟩, ⟨true, 999⟩, ⟨false, 0⟩⟩],
-    [(0, 1), (1, 0), (0, 1), (0, 1), (1, 0)]⟩ := by
+    [(0, 1), (1, 0), (0, 1), (0, 1), (1, 0)], some ['a','\n','b','\n','\n','c']⟩ := by
   decide +kernel
 
 /-- non-vacuity of the chunking: four partners give a full record plus an empty one, five give 4 + 1. -/
@@ -181,6 +183,10 @@ example : Pdb.dumpConect pdbL 6 [(0, 1), (0, 2), (0, 3), (0, 4)] =
      "CONECT    3    1\n".toList, "CONECT    4    1\n".toList, "CONECT    5    1\n".toList] ∧
     (Pdb.dumpConect pdbL 6 [(0, 1), (0, 2), (0, 3), (0, 4), (5, 0)]).take 2 =
     ["CONECT    1    2    3    4    5\n".toList, "CONECT    1    6\n".toList] := by decide +kernel
+
+/-- non-vacuity of the continuation records: a twelve-line title is written with the numbers 2 … 12 ending in column ten. -/
+example : (Pdb.multiLines pdbL Pdb.kTitle "a\nb\nc\nd\ne\nf\ng\nh\ni\nj\nk\nl".toList).drop 8 =
+    ["TITLE    9 i\n".toList, "TITLE   10 j\n".toList, "TITLE   11 k\n".toList, "TITLE   12 l\n".toList] := by decide +kernel
 
 end Iodata.Props.C02
 
